@@ -310,5 +310,11 @@ func GetSCTs(ctx context.Context, submitter Submitter, chain []ct.ASN1Cert, asPr
 			groupComplete[g.Name] = g.Success
 		}
 	}
+	// All races have ended, so every request has been answered. Judge the
+	// groups on the final state, not on what each race saw when it ended: a
+	// race ends early when all its logs had been requested by other races.
+	for _, g := range groups {
+		groupComplete[g.Name] = submissions.groupComplete(g.Name)
+	}
 	return submissions.collectSCTs(), completenessError(groupComplete)
 }
